@@ -1,5 +1,5 @@
 (* C13 - Read-only operations on a shared packet are safe to run concurrently (partial). *)
-From MQ Require Import Model.Conc Proofs.ConcP Model.Render Model.ReadOnlyApi gen.GenEffects gen.SyncEffects.
+From MQ Require Import Model.Conc Proofs.ConcP Model.Render Model.Fill Proofs.FillP Model.ReadOnlyApi gen.GenEffects gen.SyncEffects.
 From Coq Require Import String.
 From Coq Require Import List. Import ListNotations.
 
@@ -39,6 +39,21 @@ Theorem C13_api_writes_nothing :
   forallb (fun m => existsb (String.eqb m) g_readonly_methods) readonly_api = true.
 Proof. exact (conj sync_readonly_effects (conj sync_no_global_state sync_readonly_methods)). Qed.
 Print Assumptions C13_api_writes_nothing.
+
+(* The one package-level variable the encoders are handed is the nil slice
+   _LEN (the dry run `p.fill(_LEN, 0)` of width(), String() and WriteTo): the
+   analysis treats a slice variable that is never assigned as aliasing no
+   memory.  In the positional model that is a theorem: run on the empty
+   buffer from any position, every packet's fill returns the empty buffer -
+   no guarded write fires - so concurrent dry runs share nothing they write. *)
+Theorem C13_dry_run_writes_nothing : forall k p i buf' n,
+  pfill_pkt k p [] i = Some (buf', n) -> buf' = [].
+Proof.
+  intros k p i buf' n H. pose proof (pfill_pkt_ok k p [] i) as A. rewrite H in A.
+  destruct (encode_pkt k p) as [bs|]; cbn [agrees] in A; [|discriminate A].
+  destruct A as (b & E & Hl & _). injection E as E1 _. subst b. destruct buf'; [reflexivity|discriminate Hl].
+Qed.
+Print Assumptions C13_dry_run_writes_nothing.
 
 (* Not proved: the Go memory model, the runtime and the standard library
    (fmt, io) are outside the model; the harness built with the Go race
